@@ -162,7 +162,7 @@ func checkC17(c *Ctx) {
 		}
 		ds := res.Tag("DIFFER")
 		if len(ds) == 0 {
-			c.Inconclusive("engine difference in program %d step %d did not reproduce", d.Tr, d.I)
+			c.Unreproduced("engine difference in program %d step %d did not reproduce", d.Tr, d.I)
 			continue
 		}
 		var d2 diff
